@@ -1864,6 +1864,7 @@ func (c *DnsController) evictIdleDnsForwarders(now time.Time) {
 	nowNano := now.UnixNano()
 	idleNano := c.dnsForwarderIdleTTL.Nanoseconds()
 	var toClose []DnsForwarder
+	var toRetire []*cachedDnsForwarder
 
 	c.dnsForwarderCache.Range(func(key, value any) bool {
 		k, ok := key.(dnsForwarderKey)
@@ -1893,7 +1894,7 @@ func (c *DnsController) evictIdleDnsForwarders(now time.Time) {
 		}
 
 		if c.dnsForwarderCache.CompareAndDelete(k, entry) {
-			toClose = append(toClose, entry.forwarder)
+			toRetire = append(toRetire, entry)
 		}
 		return true
 	})
@@ -1903,6 +1904,14 @@ func (c *DnsController) evictIdleDnsForwarders(now time.Time) {
 			continue
 		}
 		if err := forwarder.Close(); err != nil && c.log != nil {
+			c.log.WithError(err).Debugln("failed to close idle dns forwarder")
+		}
+	}
+	// A query may have looked an entry up just before it was deleted and be
+	// admitted to it now: retire it instead of closing it, so that it is closed
+	// once, after its last user.
+	for _, entry := range toRetire {
+		if err := entry.retire(); err != nil && c.log != nil {
 			c.log.WithError(err).Debugln("failed to close idle dns forwarder")
 		}
 	}
